@@ -10,7 +10,7 @@ H = "c03_syncrecv"
 BUILDS = [(H, "plain"), (H, "tsan"), (H, "asan")]   # quick: plain + tsan; thorough adds asan
 
 
-def _worker(ctx, binary, mode, seed, start, count, stride=1, timeout=1500, isolated=False):
+def _worker(ctx, binary, mode, seed, start, count, stride=1, timeout=1500, isolated=False, extra=()):
     """Run histories start, start+stride, ...; a watchdog inside the harness ends the process with a
     'stopped' record (its threads cannot be joined) - resume behind that history."""
     results, done = [], 0
@@ -21,6 +21,7 @@ def _worker(ctx, binary, mode, seed, start, count, stride=1, timeout=1500, isola
         args = ["--mode", mode, "--seed", seed, "--from", first, "--count", count - done, "--stride", stride, "--out", out]
         if isolated:
             args += ["--isolated", 1]
+        args += list(extra)
         rr = vf.run_harness(binary, args, timeout=timeout, out_file=out)
         rr.where = f"({mode}, {fl}, from {first})"
         results.append(rr)
@@ -52,11 +53,13 @@ def run(ctx):
     flavors = ["plain", "tsan"] + (["asan"] if thorough else [])
     bins = vf.build_many([(H, f) for f in flavors])
     space = _space(bins[(H, "plain")])
-    # histories per flavor: (conc, seq, tcp, probe, exhaustive stride or 0)
+    # histories per flavor: (conc, seq, tcp, probe, exhaustive stride or 0); multi = transports with 2-6 Sync sessions each
     if thorough:
         plan = {"plain": (120000, 80000, 6000, 48, 1), "asan": (30000, 20000, 1500, 16, 1), "tsan": (16000, 10000, 800, 16, 1)}
+        multi = {"plain": 20000, "asan": 5000, "tsan": 2500}
     else:
         plan = {"plain": (2400, 1200, 256, 8, 41), "tsan": (800, 400, 64, 4, 499)}
+        multi = {"plain": 600, "tsan": 160}
     jobs = []
     exh_runs = {}
     for fl in flavors:
@@ -66,9 +69,10 @@ def run(ctx):
         for mode, n in (("conc", conc), ("seq", seq), ("tcp", tcp), ("probe", probe)):
             for s, c in _split(n, par if mode in ("conc", "seq") else max(2, par // 4)):
                 jobs.append(lambda b=b, mode=mode, s=s, c=c: _worker(ctx, b, mode, ctx.seed, s, c))
+        # multi-session transports; thorough: every 200th one at the default GC threshold with >1024 short-lived sessions
+        for s, c in _split(multi[fl], par):
+            jobs.append(lambda b=b, s=s, c=c: _worker(ctx, b, "multi", ctx.seed, s, c, extra=("--big-every", 200 if thorough else 0)))
         if stride:
-            n = (space + stride - 1) // stride
-            exh_runs[fl] = (stride, n)
             off = 0 if stride == 1 else ctx.seed % stride   # quick: a seeded residue class of the space
             n = (space - off + stride - 1) // stride
             exh_runs[fl] = (stride, n)
@@ -98,7 +102,8 @@ def run(ctx):
     }
     ctx.rule = ("history = (chunking of a self-describing stream, maxSyncReceiveBuffer, initial mode, arrival pacing, reader buffer-length and "
                 "timeout profile, mode-switch/close script with gates, callback delay, pre-park delay); conc = 3-4 threads racing, seq = one "
-                "director, exh = enumerated small scope, tcp = real engine + raw peer writing data and FIN back to back. distinct = hash of "
+                "director, multi = 2-6 Sync sessions on one Transport with syncBufferGcThreshold 1..8 closing with undrained tails while "
+                "unrelated sessions open/close (tombstone GC), late drains with buffers of 1..8 bytes, exh = enumerated small scope, tcp = real engine + raw peer writing data and FIN back to back. distinct = hash of "
                 "(kind, #chunks class, overflow possible/reported, definitely-Disabled chunk, ambiguous chunk, flush handed bytes, flush raced "
                 "an arrival, reader inside call at close, bytes drained after close, Cancelled/Timeout/PeerClosed seen, late-caller data, "
                 "direct callbacks, close origin, unexplained gap)")
@@ -107,14 +112,16 @@ def run(ctx):
         "an event A is 'before' B only if A's end was logged before B's start on one global atomic sequence; overlapping events are "
         "treated as unordered and every outcome either order allows is accepted",
         "a switch to Async on a session whose close was already reported is not required to flush (the tail stays readable by receiveSync)",
-        "after a BufferOverflow report, PeerClosed is tolerated once the close has been reported; anything else must be BufferOverflow",
+        "BufferOverflow is sticky until the close: once the close has been reported AND the overflow had been reported, a later call may "
+        "return PeerClosed or Timeout (closed entry reclaimed); an overflow that was never reported must still be reported after the close",
+        "a closed, fully drained session may be reclaimed, so a late receiveSync is not required to ever return PeerClosed",
         "TSan builds perturb from harness threads only (no condvar shim); the pre-park delay runs in plain/asan builds",
     ]
-    need = ["histories_conc", "histories_seq", "histories_exh", "histories_tcp", "recv_data", "recv_PeerClosed", "recv_BufferOverflow",
-            "recv_Timeout", "flush_handed_bytes", "flush_raced_with_arrival", "reader_inside_call_at_close",
-            "close_then_buffered_bytes_drained", "chunks_definitely_disabled", "chunks_mode_ambiguous", "recv_rejected_during_flush",
-            "cb_direct", "cb_flush", "late_caller_data_results", "tcp_peerclosed_after_full_drain", "tcp_reader_parked_before_peer_wrote",
-            "tcp_fin_processed_before_first_read", "second_reader_rejected", "condvar_prepark_delays"]
+    # only things the workloads produce by construction (race outcomes are reported, not required)
+    need = ["histories_conc", "histories_seq", "histories_exh", "histories_tcp", "histories_multi", "recv_data", "recv_PeerClosed",
+            "recv_BufferOverflow", "recv_Timeout", "flush_handed_bytes", "close_then_buffered_bytes_drained",
+            "chunks_definitely_disabled", "cb_direct", "cb_flush", "late_caller_data_results", "tcp_peerclosed_after_full_drain",
+            "tcp_reader_parked_before_peer_wrote", "multi_other_close_while_closed_tail_undrained", "multi_filler_closes"]
     ctx.require_obs(*need)
 
 
